@@ -49,7 +49,7 @@ FMT = ("e", 7)
 
 
 @st.composite
-def _case(draw, nr_max, accept, route=None, rem=None):
+def _case(draw, nr_max, accept, route=None, rem=None, grid_spec=None):
     route = route or draw(st.sampled_from(["api_class", "writePotentials", "potable:DL_POLY", "potable:DLPOLY", "main"]))
     m = draw(gen.pair_model(4, 2, pycallables=not route.startswith(("potable", "main"))))
     cutoff, _ = draw(gen.grid_rc(10))
@@ -68,12 +68,12 @@ def _case(draw, nr_max, accept, route=None, rem=None):
             m["pair"] = []
     m.update({"cutoff": cutoff, "nr": nr, "route": route,
               "container": draw(st.sampled_from(["list", "list", "tuple", "iterator", "generator"]))})
-    if route.startswith(("potable", "main")) and draw(st.integers(0, 2)) == 0:
+    if route.startswith(("potable", "main")) and (grid_spec or draw(st.integers(0, 2)) == 0):
         # the same grid given through the step: nr + dr, or cutoff + dr (cutoff = (nr-1)*dr); cutpot is that cutoff
         # and delpot = cutoff/(nr-4) as for any other way of giving the grid
         step = draw(st.sampled_from([0.01, 0.005, 0.02, 0.05, 0.125]))
         m["cutoff"] = (nr - 1) * step
-        m["grid_spec"] = draw(st.sampled_from(["nr_dr", "cutoff_dr"]))
+        m["grid_spec"] = grid_spec or draw(st.sampled_from(["cutoff_dr", "nr_dr"]))
         m["dr_given"] = repr(step)
     return m
 
@@ -152,6 +152,7 @@ def strata(tier):
            ("decay_tail", _special("decay_tail"), 2), ("growth", _special("growth"), 1), ("int_plateau", _special("int_plateau"), 1)]
     out.append(("break_on_row", _node_case(), 2))
     out.append(("large_file", _large_case(), 0.5))
+    out += [("grid_given_as:%s:%s" % (g, r), _case(mx, True, r, grid_spec=g), 0.4) for g in ("nr_dr", "cutoff_dr") for r in ("potable:DL_POLY", "main")]
     out += [("label:eight_characters", _label_case(mx, False), 0.7), ("reject:label_longer_than_field", _label_case(mx, True), 1)]
     out += [("other_units:" + f, _units(f), 0.25) for f in gen.UNIT_FORMS if f not in ("zero", "constant")]
     for route in ("api_class", "writePotentials", "potable:DL_POLY", "potable:DLPOLY", "main"):
